@@ -2,11 +2,76 @@ import ShVerif.Model.C24
 import ShVerif.Proofs.C24
 /-
   C24 — printf and echo -e format like bash.  Property theorems.
+
+  `formatInto`, `printfBuiltin`, `echoBuiltin` are the model of the Go code (tied to it by the
+  harness); `Spec.*` is the description of bash (tied to the real bash by the harness).
 -/
 namespace ShVerif.C24
 
-/-- placeholder while the obligations are being written -/
-theorem smoke : formatInto [37, 100] [[53]] false = .obs { out := [53], consumed := 1, err := none } := by
-  decide
+/-! ## safety: index panics and the fmt fragment -/
+
+/-- `formatInto` never reaches a Go index/slice panic (`readDigits`' `format[i:i+j]`, `arg[0]` of
+    `%c`, `args[0]`, `args[1:]`) and never calls `fmt.Fprintf` outside the modelled fragment —
+    for every format, argument list and nil-ness of the argument slice. -/
+theorem format_safe (f : Bytes) (args : List Bytes) (argsNil : Bool) :
+    ∃ o, formatInto f args argsNil = .obs o :=
+  formatInto_obs f args argsNil
+
+/-- The `printf` loop terminates within `len(args)+1` iterations, `args[n:]` never panics; the
+    same for `echo`. -/
+theorem builtins_safe (ws : List Bytes) :
+    (∃ r, printfBuiltin ws = .done r) ∧ (∃ r, echoBuiltin ws = .done r) := by
+  constructor
+  · cases ws with
+    | nil => exact ⟨_, rfl⟩
+    | cons fmt args =>
+      simp only [printfBuiltin]
+      cases he : (formatArgs fmt []).errOf with
+      | none =>
+        obtain ⟨out, h, _⟩ := printfLoop_reuse fmt he (args.length + 1) args [] (Nat.lt_succ_self _)
+        exact ⟨_, h⟩
+      | some e => exact ⟨_, printfLoop_err fmt e he _ _ _⟩
+  · unfold echoBuiltin
+    rcases echoOpts ws true false with ⟨nl, ex, rest⟩
+    obtain ⟨b, hb⟩ := echoBody_some ex rest true
+    simp only [hb]
+    exact ⟨_, rfl⟩
+
+/-! ## format reuse -/
+
+/-- Whether a pass fails is a property of the format alone. -/
+theorem error_format_only (fmt : Bytes) (a1 a2 : List Bytes) :
+    (formatArgs fmt a1).errOf = (formatArgs fmt a2).errOf :=
+  formatArgs_errOf_indep fmt a1 a2
+
+/-- The `printf` builtin: a malformed format gives status 1 and no output at all; otherwise the
+    status is 0 and the output is the concatenation of single passes over consecutive chunks of
+    the arguments — every argument is consumed (`Reuse.last`/`Reuse.more`: each chunk is used up
+    by its pass, `left = 0`), unless the format takes no argument (`Reuse.ignored`, the Go loop's
+    `n == 0` exit). -/
+theorem reuse_loop (fmt : Bytes) (args : List Bytes) :
+    (∃ e, (formatArgs fmt []).errOf = some e ∧ printfBuiltin (fmt :: args) = .done ⟨[], 1⟩) ∨
+    ((formatArgs fmt []).errOf = none ∧
+      ∃ out, printfBuiltin (fmt :: args) = .done ⟨out, 0⟩ ∧ Reuse fmt args out) := by
+  simp only [printfBuiltin]
+  cases he : (formatArgs fmt []).errOf with
+  | none =>
+    right
+    obtain ⟨out, h, hr⟩ := printfLoop_reuse fmt he (args.length + 1) args [] (Nat.lt_succ_self _)
+    exact ⟨rfl, out, by simpa using h, hr⟩
+  | some e => left; exact ⟨e, rfl, printfLoop_err fmt e he _ _ _⟩
+
+/-- Missing arguments are empty strings (numeric conversions print 0, `%c` a NUL byte): padding
+    the argument list with empty strings changes nothing that is written. -/
+theorem missing_args (fmt : Bytes) (args : List Bytes) (m : Nat) :
+    (formatArgs fmt (args ++ List.replicate m [])).view = (formatArgs fmt args).view :=
+  go_missing formatNil nestedOK_formatNil m fmt 0 [] args FmtsOK_nil
+
+/-! Non-vacuity -/
+example : printfBuiltin [[37, 100, 95], [49], [50], [51]] = .done ⟨[49, 95, 50, 95, 51, 95], 0⟩ := by decide
+example : Reuse [37, 100, 95] [[49], [50]] [49, 95, 50, 95] :=
+  Reuse.more [[49]] [[50]] [49, 95] [50, 95] (by decide) (by decide) (by decide) (Reuse.last _ _ (by decide))
+example : (formatArgs [37] []).errOf = some .missingChar := by decide
+example : formatArgs [37, 99, 37, 100] [] = .ok [0, 48] 0 := by decide
 
 end ShVerif.C24
